@@ -657,6 +657,11 @@ class BaseCartesianData(BaseData, metaclass=abc.ABCMeta):
 
         self._externally_derivable_components = derivable_components
 
+        # Masks of subset states that were computed using the previous links
+        # can't be trusted anymore (do this before alerting the hub, since
+        # listeners may re-compute masks straight away)
+        _clear_subset_state_caches()
+
         if self.hub:
             msg = ExternallyDerivableComponentsChangedMessage(self)
             self.hub.broadcast(msg)
